@@ -4,6 +4,7 @@ Driver for Model/Fit.lean at ℚ:   lake env lean --run PgVerif/Drv/Fit.lean
   vrmse2 [residuals]           -> ok n/d          (Virial)
   clamp lo hi v                -> ok n/d          (`~` = infinite bound)
   best [errors]                -> ok i | none
+  guess [e0;~;e2;…]            -> ok i | none     (candidates in the order tried, `~` = fit refused; i = position of the one returned)
   branch [b0;b1;…] b           -> ok [indices]
 -/
 import PgVerif.Model.Fit
@@ -30,6 +31,13 @@ def step (ts : List String) : String :=
     match ratList es with
     | some es =>
       match bestIdx (α := ℚ) es with
+      | some i => s!"ok {i}"
+      | none => "none"
+    | none => "bad-op"
+  | ["guess", cs] =>
+    match (parseList cs).bind (·.mapM optRat) with
+    | some cs =>
+      match guessIdx (α := ℚ) cs with
       | some i => s!"ok {i}"
       | none => "none"
     | none => "bad-op"
